@@ -457,6 +457,29 @@ fn check_object_array(r: &mut Run<'_>, xs: &[RVal]) {
         } else {
             r.fail("where:fails-on-array", format!("{xd} | where: '{p}' returned an error"), &rp);
         }
+        // where with a boolean / nil target: membership = the object HAS the property and the
+        // value model (consulted through the Rust API, C06 layer 1) says it equals the target
+        for target in [RVal::Bool(false), RVal::Nil, RVal::Bool(true)] {
+            o.insert("t".into(), target.to_liquid());
+            if let Some(d) = r.eval("where-target", &t.where2, &o, &rp) {
+                let tv = target.to_liquid();
+                let want: Vec<String> = xs
+                    .iter()
+                    .filter(|v| match prop_of(v, p) {
+                        Some(pv) => {
+                            let pvl = pv.to_liquid();
+                            liquid::model::ValueViewCmp::new(&pvl) == liquid::model::ValueViewCmp::new(&tv)
+                        }
+                        None => false,
+                    })
+                    .map(|v| v.dump())
+                    .collect();
+                let el = split_array_dump(&d).unwrap_or_default();
+                if el != want {
+                    r.fail("where:wrong-with-target", format!("{xd} | where: '{p}', {} = {d}, objects having the property equal to the target = [{}]", target.dump(), want.join(",")), &rp);
+                }
+            }
+        }
         // where with target (only on cells where equality is claimed)
         for target in [RVal::Int(1), s("a"), RVal::Int(2)] {
             o.insert("t".into(), target.to_liquid());
